@@ -138,7 +138,7 @@ pub fn confirm(r: &mut Rng, n: usize, thorough: bool, out: &mut Out) {
             stakes,
             history: if height > 0 { vec![(height - 1, 1_000_000)] } else { vec![] },
         };
-        let mut h = Hist { w: &mut w, wallet: Wallet::new(), out, stats: BTreeMap::new(), faucets_seen: vec![], pending_spenders: vec![], spent_in_block: vec![], stake_txs: vec![] };
+        let mut h = Hist { w: &mut w, wallet: Wallet::new(), out, stats: BTreeMap::new(), faucets_seen: vec![], pending_spenders: vec![], spent_in_block: vec![], stake_txs: vec![], sealed_headers: vec![] };
         let name = h.op_fab(&spec);
         let hh = {
             use tmelcrypt::Hashable;
